@@ -305,6 +305,7 @@ let run_case (x : sx) : Stdlib.String.t =
                     | L (A "re" :: j) -> BRE (List.map rstep_of j)
                     | L (A "rn" :: j) -> BRN (List.map rstep_of j)
                     | L [A "cr"; L inner; A o; L j] -> BCR (List.map rstep_of inner, op_of o, List.map rstep_of j)
+                    | L [A "rl"; L inner; A o; L j] -> BRL (List.map rstep_of j, op_of o, List.map rstep_of inner)
                     | L [A "pq"; L inner; A ne; L j] -> BPQ (List.map rstep_of inner, ne = "1", List.map rstep_of j)
                     | L (A "x" :: L inner :: body) -> BX (List.map rstep_of inner, cp body)
                     | L (A "cl" :: L inner :: A o :: lit) -> BCL (cp lit, op_of o, List.map rstep_of inner)
